@@ -3,7 +3,10 @@ Model of `parse_lcov` / `add_branch` (src/parser.rs) as a Mealy machine folded o
 bytes. The Rust code only reads forward through a `Peekable` iterator; `take_while` consumes the
 first byte that fails its predicate. Control states are the program points of `parse_lcov`.
 Numbers that do not fit their type reject the record (`try_digits!`), duplicate DA counts
-saturate.
+saturate. An FNDA record may precede the FN record of its function: it waits in `pending`
+(`pending_fnda`) until the FN arrives; what is still waiting at `end_of_record` is the error
+"FN record missing". The count of a DA record ends at the first non-digit; unless that byte is the
+line feed the rest of the line (the optional checksum field) is skipped.
 -/
 import GrcovModel.Merge
 namespace Grcov.Lcov
@@ -72,6 +75,8 @@ structure Acc where
   results : List (Bytes × Cov) := []
   curFile : Option Bytes := none
   cur : Cov := {}
+  /-- `pending_fnda`: FNDA records seen before the FN record of their function -/
+  pending : List (Bytes × Bool) := []
 deriving Repr, DecidableEq
 
 inductive Ctl where
@@ -80,6 +85,8 @@ inductive Ctl where
   | key (k : Nat)
   | sfName (acc : Bytes)
   | daFirst | daLine (n : Nat) | daAfterLine (l : Nat) | daCount (l c : Nat)
+  /-- the count ended with a byte other than LF: `take_while(|c| c != '\n').last()`, then commit -/
+  | daSkip (l c : Nat)
   | fnFirst | fnStart (n : Nat) | fnAfterStart (n : Nat) | fnName (start : Nat) (acc : Bytes)
   | fndaFirst | fndaCount (n : Nat) | fndaAfter (n : Nat) | fndaName (n : Nat) (acc : Bytes)
   | brFirst | brLine (n : Nat) | brAfterLine (l : Nat) | brBlock (l b : Nat) | brAfterBlock (l : Nat)
@@ -122,19 +129,24 @@ def addBranch (m : List (Nat × List Bool)) (l no : Nat) (t : Bool) : List (Nat 
 def commitLine (a : Acc) (l c : Nat) : Acc :=
   { a with cur := { a.cur with lines := set a.cur.lines l (satAdd ((get? a.cur.lines l).getD 0) c) } }
 
+/-- FN: `executed = pending_fnda.remove(&f_name).unwrap_or(false)`, then insert -/
 def commitFn (a : Acc) (start : Nat) (name : Bytes) : Acc :=
-  { a with cur := { a.cur with functions := set a.cur.functions (utf8Lossy name) ⟨start, false⟩ } }
+  let nm := utf8Lossy name
+  { a with
+    cur := { a.cur with functions := set a.cur.functions nm ⟨start, (get? a.pending nm).getD false⟩ }
+    pending := erase a.pending nm }
 
 def commitBranch (a : Acc) (l n : Nat) (t : Bool) : Acc :=
   { a with cur := { a.cur with branches := addBranch a.cur.branches l n t } }
 
-/-- FNDA: `f.executed |= executed != 0`, or `Parse` error when the FN record is missing -/
-def commitFnda (a : Acc) (n : Nat) (name : Bytes) : Option Acc :=
+/-- FNDA: `f.executed |= executed != 0`, or, when the FN record has not been seen yet,
+`*pending_fnda.entry(f_name).or_insert(false) |= executed != 0` -/
+def commitFnda (a : Acc) (n : Nat) (name : Bytes) : Acc :=
   let nm := utf8Lossy name
   match get? a.cur.functions nm with
-  | some f => some { a with cur := { a.cur with
+  | some f => { a with cur := { a.cur with
       functions := set a.cur.functions nm { f with executed := f.executed || decide (n ≠ 0) } } }
-  | none => none
+  | none => { a with pending := set a.pending nm ((get? a.pending nm).getD false || decide (n ≠ 0)) }
 
 /-- what the record key selects once its delimiter has been consumed -/
 def afterKey (branch : Bool) (k : Nat) : Ctl :=
@@ -160,7 +172,10 @@ def step (branch : Bool) (s : St) (b : Nat) : St :=
     if b = 101 then  -- 'e'
       match a.curFile with
       | none => { s with ctl := invalidRecord }
-      | some f => { ctl := .skip, acc := { results := a.results ++ [(f, a.cur)], curFile := none, cur := {} } }
+      | some f =>
+        if a.pending.isEmpty then
+          { ctl := .skip, acc := { a with results := a.results ++ [(f, a.cur)], curFile := none, cur := {} } }
+        else { s with ctl := .halt (.err "Parse") }   -- "FN record missing for function …"
     else if b = LF then s
     else if b = 83 ∨ b = 68 ∨ b = 70 ∨ b = 66 then { s with ctl := .key b }
     else { s with ctl := .skip }
@@ -187,7 +202,9 @@ def step (branch : Bool) (s : St) (b : Nat) : St :=
       match pushDigit U64MAX c b with
       | some v => { s with ctl := .daCount l v }
       | none => { s with ctl := invalidRecord }
-    else { ctl := .dispatch, acc := commitLine a l c }
+    else if b = LF then { ctl := .dispatch, acc := commitLine a l c }
+    else { s with ctl := .daSkip l c }
+  | .daSkip l c => if b = LF then { ctl := .dispatch, acc := commitLine a l c } else s
   -- FN:<start>,<name>
   | .fnFirst =>
     if isDigit b then { s with ctl := digitsStep U32MAX 0 b .fnStart .fnAfterStart }
@@ -205,16 +222,10 @@ def step (branch : Bool) (s : St) (b : Nat) : St :=
     else { s with ctl := invalidRecord }
   | .fndaCount n => { s with ctl := digitsStep U64MAX n b .fndaCount .fndaAfter }
   | .fndaAfter n =>
-    if b = LF ∨ b = CR then
-      match commitFnda a n [] with
-      | some a' => { ctl := .dispatch, acc := a' }
-      | none => { s with ctl := .halt (.err "Parse") }
+    if b = LF ∨ b = CR then { ctl := .dispatch, acc := commitFnda a n [] }
     else { s with ctl := .fndaName n [b] }
   | .fndaName n nm =>
-    if b = LF ∨ b = CR then
-      match commitFnda a n nm with
-      | some a' => { ctl := .dispatch, acc := a' }
-      | none => { s with ctl := .halt (.err "Parse") }
+    if b = LF ∨ b = CR then { ctl := .dispatch, acc := commitFnda a n nm }
     else { s with ctl := .fndaName n (nm ++ [b]) }
   -- BRDA:<line>,<block>,<branch>,<taken>
   | .brFirst =>
@@ -236,15 +247,12 @@ def step (branch : Bool) (s : St) (b : Nat) : St :=
 def finish (branch : Bool) (s : St) : Out :=
   match s.ctl with
   | .halt o => o
-  | .dispatch | .skip | .sfName _ | .daCount _ _ | .fnName _ _ | .brTaken _ _ _ => .ok s.acc.results
+  | .dispatch | .skip | .sfName _ | .daCount _ _ | .daSkip _ _ | .fnName _ _ | .fndaName _ _
+  | .brTaken _ _ _ => .ok s.acc.results
   | .key k =>
     match afterKey branch k with
     | .sfName _ | .skip => .ok s.acc.results
     | _ => .err "InvalidRecord"
-  | .fndaName n nm =>
-    match commitFnda s.acc n nm with
-    | some _ => .ok s.acc.results
-    | none => .err "Parse"
   | _ => .err "InvalidRecord"
 
 def run (branch : Bool) (s : St) (bs : Bytes) : St := bs.foldl (step branch) s
